@@ -233,13 +233,8 @@ pub fn object_keys(
                     // Skip if this is a numeric index that's already covered by elements
                     let is_covered_index = match key {
                         PropertyKey::Index(idx) => (*idx as usize) < len,
-                        PropertyKey::String(s) => {
-                            if let Ok(idx) = s.as_str().parse::<usize>() {
-                                idx < len
-                            } else {
-                                false
-                            }
-                        }
+                        // A string key is never an array index (those are `PropertyKey::Index`)
+                        PropertyKey::String(_) => false,
                         PropertyKey::Symbol(_) => false,
                     };
                     if !is_covered_index {
@@ -668,18 +663,8 @@ pub fn object_has_own_property(
                 // Direct numeric index - check if within bounds
                 (*index as usize) < elements.len()
             }
-            PropertyKey::String(key_str) => {
-                // Try to parse as integer index
-                if let Ok(index) = key_str.as_str().parse::<usize>() {
-                    // Check if index is within bounds
-                    index < elements.len()
-                } else {
-                    // Non-numeric key - check regular properties
-                    obj_ref.properties.contains_key(&key)
-                }
-            }
-            PropertyKey::Symbol(_) => {
-                // Symbol key - check regular properties
+            PropertyKey::String(_) | PropertyKey::Symbol(_) => {
+                // Not an array index (those are `PropertyKey::Index`) - check regular properties
                 obj_ref.properties.contains_key(&key)
             }
         }
@@ -1024,8 +1009,8 @@ pub fn object_define_property(
         if let ExoticObject::Array { ref mut elements } = obj.exotic {
             let maybe_index = match &key {
                 PropertyKey::Index(idx) => Some(*idx as usize),
-                PropertyKey::String(key_str) => key_str.as_str().parse::<usize>().ok(),
-                PropertyKey::Symbol(_) => None,
+                // A string key is never an array index: "01" and "+1" name ordinary properties
+                PropertyKey::String(_) | PropertyKey::Symbol(_) => None,
             };
 
             if let Some(index) = maybe_index {
